@@ -62,6 +62,13 @@ impl Property for C02 {
     fn cases(&self, tier: Tier) -> u64 {
         tier.pick(2_000_000, 25_000_000)
     }
+    fn fuzz_target(&self) -> Option<&'static str> {
+        Some("text_api")
+    }
+    fn from_fuzz_bytes(&self, data: &[u8]) -> Option<Case> {
+        let t = crate::fuzzdec::decode_text(data);
+        Some(Case { lang: t.lang.into(), text: t.text, th_bits: t.th_bits, hints: t.hints, numberless: false })
+    }
     fn check(&self, c: &Case, obs: &mut Obs) -> Result<(), String> {
         let lg = lang(&c.lang);
         let th = th_of(c.th_bits);
